@@ -81,6 +81,19 @@ class FPEngine(Engine):
                 return V("int", x * y)
             if isinstance(op, ast.LShift):
                 return V("int", x << y)
+            if isinstance(op, ast.RShift):
+                return V("int", x >> y)          # arithmetic shift: Python's >> on ints
+            if isinstance(op, ast.BitOr):
+                return V("int", x | y)
+            if isinstance(op, ast.BitAnd):
+                return V("int", x & y)
+            if isinstance(op, ast.BitXor):
+                return V("int", x ^ y)
+            if isinstance(op, ast.Pow):
+                xs, ys = z3.simplify(x), z3.simplify(y)
+                if z3.is_bv_value(xs) and z3.is_bv_value(ys) and ys.as_signed_long() >= 0:
+                    return V("int", bvval(xs.as_signed_long() ** ys.as_signed_long()))
+                raise OutOfReach("symbolic **")
             if isinstance(op, ast.Div):
                 return mk_float(z3.fpDiv(RNE, self.to_float(a), self.to_float(b)))
             raise OutOfReach(f"bv-int op {type(op).__name__}")
@@ -138,6 +151,8 @@ class FPEngine(Engine):
 
     def ev_UnaryOp(self, n):
         v = self.ev(n.operand)
+        if isinstance(n.op, ast.Invert) and v.k == "int":
+            return V("int", ~v.t)
         if isinstance(n.op, ast.USub) and v.k == "int":
             return V("int", -v.t)
         if isinstance(n.op, ast.USub) and v.k == "float":
